@@ -175,6 +175,22 @@ CLAIMED["C08"] = dict(
     technique="Lean 4 proof (first-match semantics, soundness of the reference exhaustiveness procedure) + verdict comparison",
 )
 
+CLAIMED["C05"] = dict(
+    text="Lean theorems C05_io_width / C05_io_decodes / C05_output_shape: for every type and well-typed value, an argument or "
+         "result of type t occupies exactly t.size wires, the output of a run is 161 panic wires followed by exactly t.size "
+         "wires, and they decode to the value. PARTIAL: compile.rs is not modelled as a whole, so that EVERY accepted program "
+         "compiles without a panic to a valid circuit of that shape is explored: generated well-typed programs (all literal "
+         "types written out) must be accepted (the converse direction), compile in 4 circuit configurations, pass "
+         "Circuit::validate, have input_gates equal to the sizes of the parameter types (one party per element for a single "
+         "array parameter), 161 + size(return type) outputs, and return Val.encode of the value the source semantics compute; "
+         "a second stream uses types of 0 bits (two recorded findings); every corpus program that compiles must validate as "
+         "SSA and as register circuit.",
+    design_ref="DESIGN.md §6 C05",
+    note="trusted: Lean kernel; Model/Value.lean encode/decode tied to literal.rs by C09's correspondence; the generator's notion "
+         "of `well-typed` is its own (type-directed construction), checked against /repo by acceptance",
+    technique="Lean 4 proof (I/O contract) + differential testing of compile() against the source semantics",
+)
+
 CLAIMED["C06"] = dict(
     text="(1) Kernel-checked obligation extracted_hashIterSites: the list of HashMap/HashSet iteration sites of /repo/src, REGENERATED "
          "from the source on every run, equals the audited list in which every site carries the reason why its order cannot reach "
